@@ -69,6 +69,8 @@ func init() {
 		vC08(seed, count, extra)
 	case "c09":
 		vC09(seed, count, extra)
+	case "c15":
+		vC15(seed, count, extra)
 	case "transpile-stdin":
 		// one hex-encoded source per line -> "ok <hex go>" | "err <hex msg>"
 		sc := bufio.NewScanner(os.Stdin)
